@@ -378,8 +378,10 @@ def parse_output(path):
     return res
 
 
-def run_both(pkg, cases, tag, race=False, timeout=1200, canon=None):
-    """run cases on implementation and model; returns (impl_out, model_out, problems)"""
+def run_both(pkg, cases, tag, race=False, timeout=1200, annotate=None):
+    """run cases on implementation and model; returns (impl_out, model_out, problems).
+    annotate(case, impl_lines) -> case: lets the model receive nondeterministic choices (Go map order, select)
+    that were observed on the implementation; the model still has to reproduce every output line."""
     cf = os.path.join(BUILD, "cases_%s.txt" % tag)
     write_cases(cases, cf)
     io = os.path.join(BUILD, "impl_%s.out" % tag)
@@ -388,13 +390,18 @@ def run_both(pkg, cases, tag, race=False, timeout=1200, canon=None):
         if os.path.exists(p):
             os.remove(p)
     rc1, out1 = run_harness(pkg, cf, io, race=race, timeout=timeout)
-    rc2, out2 = run_runner(cf, mo, timeout=timeout)
+    impl = parse_output(io)
+    mf = cf
+    if annotate is not None:
+        mf = os.path.join(BUILD, "cases_%s_model.txt" % tag)
+        write_cases([annotate(c, impl.get(c.id, [])) for c in cases], mf)
+    rc2, out2 = run_runner(mf, mo, timeout=timeout)
     problems = []
     if rc1 != 0:
         problems.append("harness exit %d: %s" % (rc1, out1[-1500:]))
     if rc2 != 0:
         problems.append("runner exit %d: %s" % (rc2, out2[-500:]))
-    return parse_output(io), parse_output(mo), problems
+    return impl, parse_output(mo), problems
 
 
 def diff_cases(cases, impl, model, canon=None):
